@@ -43,7 +43,17 @@ def main():
             meta["build_error"] = r.stdout[-800:]
             return meta
         demo = os.path.join(src, "demo.sh")
-        if os.path.exists(demo):
+        prev = {}
+        try:
+            prev = json.load(open(os.path.join(VERIF, "seeded", sid, "meta.json")))
+        except Exception:
+            pass
+        if os.environ.get("EVAL_SKIP_DEMO") and prev.get("demo_confirms"):
+            # the demonstration was confirmed when the change was first filed
+            for k in ("demo_with_change_exit", "demo_without_change_exit", "demo_confirms", "demo_tail_with_change"):
+                if k in prev:
+                    meta[k] = prev[k]
+        elif os.path.exists(demo):
             r1 = sh("cd %s && timeout 600 bash %s %s/penne/debug/penne" % (src, demo, bd))
             r0 = sh("cd %s && timeout 600 bash %s %s/.build/penne/debug/penne" % (src, demo, VERIF))
             meta["demo_with_change_exit"] = r1.returncode
